@@ -397,7 +397,7 @@ impl Check for C08 {
     }
     fn default_runs(&self, tier: Tier) -> u64 {
         match tier {
-            Tier::Quick => 1600,
+            Tier::Quick => 2050,
             Tier::Thorough => 40000,
         }
     }
